@@ -23,12 +23,15 @@ LEAVES = [
 SUB5 = [LEAVES[i] for i in (0, 1, 3, 4, 9)]
 SUB3 = [LEAVES[i] for i in (1, 3, 9)]
 
-SCALARS = [[2.0, -1.0], -0.5, {"np": "float32", "v": 3.0}, {"np": "complex64", "v": [0.5, 1.0]}]
+SCALARS = [[2.0, -1.0], -0.5, {"np": "float32", "v": 3.0}, {"np": "complex64", "v": [0.5, 1.0]},
+           1.000004, [1.0, 4e-6], {"np": "float32", "v": 1.000004}, 1]
 
 
 def scalar_val(c):
     if isinstance(c, dict):
-        return scalar_val(c["v"])
+        # the value the library actually sees: rounded to the NumPy scalar type
+        v = getattr(np, c["np"])(scalar_val(c["v"]))
+        return complex(v) if np.iscomplexobj(v) else float(v)
     if isinstance(c, list):
         return complex(c[0], c[1])
     return c
